@@ -2,6 +2,7 @@
 (* Judge clauses for C16 (print then parse is the identity).                     *)
 EXTENDS Util, FA, Regex, PDA, TM
 PR == INSTANCE Printer
+GT == INSTANCE GrammarText
 
 BadX(name, cond) == IF cond THEN {name} ELSE {}
 
@@ -15,6 +16,10 @@ JRoundtrip(e) ==
   (* binding: the text the real printer wrote is one of the texts Printer.tla produces for the object *)
   \cup (IF "plines" \in DOMAIN e
         THEN BadX("binding_printed_as_model", ~PR!PrintedAsModel(e.kind, ObjOfRt(e), e.plines))
+        ELSE {})
+  \cup (IF "ptext" \in DOMAIN e
+        THEN BadX("binding_printed_as_model", ~GT!PrintedAsModelCfg([V |-> ToSet(e.gobj.V), S |-> ToSet(e.gobj.S), R |-> e.gobj.R,
+                                                                      start |-> e.gobj.start], e.ptext, "fixed"))
         ELSE {})
 
 (* regular expressions: same language (exact) and same printed form *)
